@@ -56,6 +56,31 @@ pub fn take() -> Vec<RawEv> {
     v
 }
 
+static HANG_LOCKOUT: Mutex<Option<String>> = Mutex::new(None);
+
+/// Where the lock-ownership events collected so far go if the watchdog ends the process (the
+/// nesting that led into a deadlock is the interesting part of such a run).
+pub fn set_hang_lockout(path: Option<&str>) {
+    *HANG_LOCKOUT.lock().unwrap_or_else(|e| e.into_inner()) = path.map(String::from);
+}
+
+pub fn hang_dump() {
+    use std::io::Write as _;
+    let path = HANG_LOCKOUT.lock().unwrap_or_else(|e| e.into_inner()).clone();
+    if let Some(p) = path {
+        let evs = take();
+        if let Ok(f) = std::fs::OpenOptions::new().create(true).append(true).open(&p) {
+            let mut f = std::io::BufWriter::new(f);
+            for e in &evs {
+                if e.kind == "lk" {
+                    let _ = writeln!(f, "{}", serde_json::json!({"tid": e.tid + 900_000, "lock": String::from_utf8_lossy(&e.key), "acq": e.a, "mode": e.b}));
+                }
+            }
+            let _ = f.flush();
+        }
+    }
+}
+
 pub fn snapshot_len() -> usize {
     EVENTS.lock().unwrap_or_else(|e| e.into_inner()).len()
 }
